@@ -214,130 +214,365 @@ def int_list(node):
     return None
 
 
-def check_fn(run, prog, fname):
-    spec = SPEC[fname]
-    W = spec['w']
-    f = prog.func(fname, module='crypto.crc')
-    fn = f.node
-    where = prog.where(f)
-    mod = prog.modules['crypto.crc']
-    params = [a.arg for a in fn.args.args]
-    if not params:
-        raise AnalysisError(f'{fname} has no parameters')
-    data = params[0]
-    defaults = dict(zip(params[len(params) - len(fn.args.defaults):], fn.args.defaults))
-    # environment: module-level and function-level literal tables / int constants
-    consts = {}
-    for name, expr in mod.consts.items():
-        il = int_list(expr)
-        if il is not None:
-            consts[name] = il
-        elif isinstance(expr, ast.Constant) and isinstance(expr.value, int):
-            consts[name] = Vec.const(expr.value)
-    # names bound at module level to a *computed* constant (a table built by a helper at import time, a comprehension, ...):
-    # constant-folded by the checker's general evaluator - pure integer code on constants only, no input involved
-    for name, expr in mod.consts.items():
-        if name not in consts and not isinstance(expr, (ast.Constant, ast.Lambda)):
-            v = fold_const(prog, 'crypto.crc', expr)
-            if v is not None:
-                consts[name] = v
-    aff = Aff(consts)
-    aff.fold = lambda expr: fold_const(prog, 'crypto.crc', expr, aff.env)
-    loop = None
-    pre, post = [], []
-    for st in fn.body:
-        if isinstance(st, ast.Expr) and isinstance(st.value, ast.Constant):
-            continue
-        if isinstance(st, ast.For) and loop is None:
-            loop = st
-        elif loop is None:
-            pre.append(st)
-        else:
-            post.append(st)
-    if loop is None:
-        raise AnalysisError(f'{fname}: no loop over the input found')
-    # ---- O4 loop shape
-    shape_ok = isinstance(loop.iter, ast.Name) and loop.iter.id == data and isinstance(loop.target, ast.Name) \
-        and not loop.orelse and not any(isinstance(x, (ast.Break, ast.Continue, ast.Return, ast.Raise, ast.If, ast.While, ast.For, ast.Try))
-                                        for s in loop.body for x in ast.walk(s))
-    run.check(shape_ok, 'O4', f'{fname}.loop', 'for <byte> in <data>: straight-line body, no early exit', where)
-    if not shape_ok:
-        return
-    byte = loop.target.id
-    # ---- prelude: tables and initial value
-    for st in pre:
-        if isinstance(st, ast.Assign) and len(st.targets) == 1 and isinstance(st.targets[0], ast.Name):
-            il = int_list(st.value)
-            if il is not None:
-                aff.env[st.targets[0].id] = il
-            else:
-                try:
-                    aff.env[st.targets[0].id] = aff.ev(st.value)
-                except AnalysisError:
-                    v = aff.fold(st.value)
-                    if v is None:
-                        raise
-                    aff.env[st.targets[0].id] = v
-        elif isinstance(st, ast.AnnAssign) and isinstance(st.target, ast.Name) and st.value is not None:
-            il = int_list(st.value)
-            aff.env[st.target.id] = il if il is not None else aff.ev(st.value)
-        elif isinstance(st, ast.If) and wrapper_branch(st, fname, data):
-            # a type-normalising wrapper branch: `if not isinstance(data, bytes): return f(bytes(data), ...)`.  It computes the same function iff
-            # every other parameter is forwarded unchanged (then the claim follows from the main path by one unfolding)
-            call = st.body[0].value
-            missing = []
-            for i, pname in enumerate(params[1:], start=1):
-                passed = call.args[i] if i < len(call.args) else next((k.value for k in call.keywords if k.arg == pname), None)
-                if not (isinstance(passed, ast.Name) and passed.id == pname):
-                    missing.append(pname)
-            run.check(not missing, 'O3b', f'{fname}.output' if missing else f'{fname}.wrapper-branch',
-                      f'the branch `{ast.unparse(st.test)[:50]}` re-enters {fname} ' + (f'without forwarding {missing}: the result ignores the requested {", ".join(missing)}' if missing else 'forwarding every parameter'), where)
-        else:
-            raise AnalysisError(f'{fname}: unsupported statement before the loop: {ast.unparse(st)[:60]}')
-    # ---- O1 tables
-    tables = {k: v for k, v in aff.env.items() if isinstance(v, list)}
-    used = {n.id for s in loop.body for n in ast.walk(s) if isinstance(n, ast.Name)} & set(tables)
-    for t in sorted(used):
-        T = tables[t]
-        ok = T == spec['table']
-        bad = [i for i in range(min(len(T), 256)) if T[i] != spec['table'][i]][:3]
-        run.check(ok, 'O1', f'{fname}.table', f'{len(T)} entries equal the table generated from the polynomial'
-                  if ok else f'table `{t}` differs from the generated table at indices {bad} (len {len(T)})', where)
-        lin = len(T) == 256 and T[0] == 0 and all(
-            T[a] == _xor([T[1 << i] for i in range(8) if a >> i & 1]) for a in range(256))
-        run.check(lin, 'O1b', f'{fname}.table-linear', 'T[a^b] = T[a]^T[b] on all 256 entries (premise of the affine lookup)', where)
-        if not lin:
-            return
-    if not used:
-        run.info(f'{fname}: table-free implementation')
-    # ---- state variables: assigned in the loop and bound before it
-    assigned = []
-    for s in loop.body:
-        tg = s.targets[0] if isinstance(s, ast.Assign) and len(s.targets) == 1 else s.target if isinstance(s, ast.AugAssign) else None
-        if not isinstance(tg, ast.Name):
-            raise AnalysisError(f'{fname}: unsupported loop statement {ast.unparse(s)[:60]}')
-        if tg.id not in assigned:
-            assigned.append(tg.id)
-    state = [v for v in assigned if v in aff.env and isinstance(aff.env[v], Vec)]
-    if len(state) != 1:
-        raise AnalysisError(f'{fname}: expected one loop-carried state variable, found {state}')
-    sv = state[0]
-    init = aff.env[sv]
-    run.check(init.is_const() and init.cval() == spec['init'], 'O3', f'{fname}.init',
-              f'initial value {init.cval() if init.is_const() else "?"} (spec {spec["init"]:#x})', where)
-    # ---- O2 transition map
-    aff.env[sv] = Vec.sym('s', W)
-    aff.env[byte] = Vec.sym('b', 8)
-    for s in loop.body:
-        if isinstance(s, ast.Assign):
-            aff.env[s.targets[0].id] = aff.ev(s.value)
-        else:
-            cur = aff.env[s.target.id]
-            aff.env[s.target.id] = aff.ev(ast.BinOp(left=ast.Name(id=s.target.id), op=s.op, right=s.value))
-    new = aff.env[sv]
-    run.check(new.width() <= W, 'O2b', f'{fname}.state-range', f'state stays within {W} bits (width {new.width()})', where)
-    # spec map: columns from the bitwise definition on the basis of (state, byte) and the zero vector
-    step = spec['step']
+# ---------------------------------------------------------------- the length skeleton: positions as linear forms in q, len(data) = M*q + r
+class Lin:
+    """a*q + b for the path's symbolic q >= 0"""
+    __slots__ = ('a', 'b')
+
+    def __init__(self, a, b):
+        self.a, self.b = a, b
+
+    def __add__(self, o):
+        return Lin(self.a + o.a, self.b + o.b)
+
+    def __sub__(self, o):
+        return Lin(self.a - o.a, self.b - o.b)
+
+    def __eq__(self, o):
+        return isinstance(o, Lin) and (self.a, self.b) == (o.a, o.b)
+
+    def __hash__(self):
+        return hash((self.a, self.b))
+
+    def is_const(self):
+        return self.a == 0
+
+
+class Seg:
+    """data[x:y] of the original input, 0 <= x <= y <= n on the path"""
+    def __init__(self, x, y):
+        self.x, self.y = x, y
+
+
+class Idx:
+    """the index variable of `for i in range(x, y, k)` plus a constant"""
+    def __init__(self, c):
+        self.c = c
+
+
+class NeedModulus(Exception):
+    def __init__(self, m):
+        self.m = m
+
+
+class PathEnd(Exception):
+    pass
+
+
+BYTE_TYPES = frozenset({'bytes', 'bytearray'})
+
+
+class Path:
+    def __init__(self, prefix, M, r):
+        self.prefix, self.trail = list(prefix), []
+        self.M, self.r = M, r
+        self.qlo, self.qhi = 0, None
+        self.dtypes = BYTE_TYPES
+        self.events = []          # (kind, Seg, k, loop node)
+        self.notes = []
+
+    def decide(self):
+        i = len(self.trail)
+        v = self.prefix[i] if i < len(self.prefix) else True
+        self.trail.append(v)
+        return v
+
+    def n(self):
+        return Lin(self.M, self.r)
+
+    def ge0(self, l):
+        """l >= 0 on this path (forks, refining the interval of q, when the path does not decide it)"""
+        if l.a == 0:
+            return l.b >= 0
+        if l.a > 0:
+            t = -(l.b // l.a)            # smallest q with a*q + b >= 0  (ceil(-b/a))
+            if self.qlo >= t:
+                return True
+            if self.qhi is not None and self.qhi < t:
+                return False
+            if self.decide():
+                self.qlo = t
+                return True
+            self.qhi = t - 1
+            return False
+        t = l.b // (-l.a)                # largest q with a*q + b >= 0
+        if self.qhi is not None and self.qhi <= t:
+            return True
+        if self.qlo > t:
+            return False
+        if self.decide():
+            self.qhi = t
+            if self.qhi < self.qlo:
+                raise PathEnd()
+            return True
+        self.qlo = t + 1
+        return False
+
+    def feasible(self):
+        return self.qhi is None or self.qlo <= self.qhi
+
+    def show(self, l):
+        if not isinstance(l, Lin):
+            return str(l)
+        if l.a == 0:
+            return str(l.b)
+        if l.a == self.M:
+            d = l.b - self.r
+            return 'n' + (f'{d:+d}' if d else '')
+        return f'{l.a}q{l.b:+d}'
+
+    def cond(self):
+        rng = f'q >= {self.qlo}' if self.qhi is None else f'{self.qlo} <= q <= {self.qhi}'
+        n = (f'len(data) = n = {self.M}q+{self.r}, {rng}' if self.M > 1 else f'len(data) = n = q, {rng}')
+        return n + (f', type {"/".join(sorted(self.dtypes))}' if self.dtypes != BYTE_TYPES else '')
+
+
+STRUCT_FMT = {'<B': (1, 'little'), '>B': (1, 'big'), 'B': (1, 'little'), '<H': (2, 'little'), '>H': (2, 'big'), '!H': (2, 'big'),
+              '<I': (4, 'little'), '>I': (4, 'big'), '!I': (4, 'big'), '<L': (4, 'little'), '>L': (4, 'big'),
+              '<Q': (8, 'little'), '>Q': (8, 'big'), '!Q': (8, 'big')}
+
+
+def bytes_vec(k, order, first=0):
+    """the integer made of bytes first..first+k-1 of the current unit, as a Vec over b<8*i+j>"""
+    bits = {}
+    for i in range(k):
+        pos = i if order == 'little' else k - 1 - i
+        for j in range(8):
+            bits[8 * pos + j] = frozenset([f'b{8 * (first + i) + j}'])
+    return Vec(bits)
+
+
+class PathEv(Aff):
+    """the affine evaluator extended by the length skeleton (Lin / Seg / Idx) for one path"""
+    def __init__(self, consts, path, ctx):
+        super().__init__(consts)
+        self.path, self.ctx = path, ctx
+
+    # ---- conversions
+    def lin(self, v):
+        if isinstance(v, Lin):
+            return v
+        if isinstance(v, Vec) and v.is_const():
+            return Lin(0, v.cval())
+        raise AnalysisError('a data-dependent value is used as a length / position')
+
+    def unlin(self, l):
+        if isinstance(l, Lin) and l.a == 0 and l.b >= 0:
+            return Vec.const(l.b)
+        return l
+
+    def mod(self, l, m):
+        if l.a % m:
+            raise NeedModulus(m)
+        return Lin(0, l.b % m)
+
+    def div(self, l, m):
+        if l.a % m:
+            raise NeedModulus(m)
+        return Lin(l.a // m, l.b // m)
+
+    def ev(self, n):
+        P = self.path
+        if isinstance(n, ast.Call):
+            f = n.func
+            if isinstance(f, ast.Name) and f.id == 'len' and len(n.args) == 1:
+                s = self.ev(n.args[0])
+                if isinstance(s, Seg):
+                    return s.y - s.x
+                if isinstance(s, list):
+                    return Vec.const(len(s))
+                raise AnalysisError('len() of a non-sequence')
+            if isinstance(f, ast.Name) and f.id in ('bytes', 'bytearray', 'memoryview') and len(n.args) == 1 and not n.keywords:
+                s = self.ev(n.args[0])
+                if isinstance(s, Seg):
+                    return s
+                raise AnalysisError(f'{f.id}() of a non-input value')
+            if isinstance(f, ast.Name) and f.id in ('min', 'max') and len(n.args) == 2:
+                a, b = self.lin(self.ev(n.args[0])), self.lin(self.ev(n.args[1]))
+                a_ge_b = P.ge0(a - b)
+                return self.unlin((a if a_ge_b else b) if f.id == 'max' else (b if a_ge_b else a))
+            if isinstance(f, ast.Attribute) and f.attr == 'from_bytes' and isinstance(f.value, ast.Name) and f.value.id == 'int':
+                args = list(n.args) + [k.value for k in n.keywords if k.arg == 'byteorder']
+                if any(k.arg == 'signed' and not (isinstance(k.value, ast.Constant) and not k.value.value) for k in n.keywords):
+                    raise AnalysisError('signed from_bytes')
+                chunk = self.ev(args[0])
+                order = self.ev(args[1]) if len(args) > 1 else 'big'
+                if isinstance(chunk, tuple) and chunk[0] == 'chunk' and order in ('little', 'big'):
+                    return bytes_vec(chunk[2], order, chunk[1])
+                raise AnalysisError('int.from_bytes of something other than a chunk of the current unit')
+            if isinstance(f, ast.Name) and f.id in self.ctx['helpers']:
+                return self.ev(self.ctx['inline'](n))
+            raise AnalysisError(f'call {ast.unparse(n)[:50]} outside the affine sub-language')
+        if isinstance(n, ast.UnaryOp) and isinstance(n.op, ast.USub):
+            v = self.ev(n.operand)
+            l = self.lin(v)
+            return self.unlin(Lin(-l.a, -l.b))
+        if isinstance(n, ast.UnaryOp) and isinstance(n.op, ast.Invert):
+            v = self.ev(n.operand)
+            if isinstance(v, Vec) and v.is_const():
+                return Lin(0, ~v.cval())
+            raise AnalysisError('~ yields negative ints')
+        if isinstance(n, ast.BinOp):
+            a, b = self.ev(n.left), self.ev(n.right)
+            if isinstance(a, Idx) or isinstance(b, Idx):
+                if isinstance(n.op, ast.Add):
+                    i, o = (a, b) if isinstance(a, Idx) else (b, a)
+                    o = self.lin(o)
+                    if o.a == 0:
+                        return Idx(i.c + o.b)
+                if isinstance(n.op, ast.Sub) and isinstance(a, Idx):
+                    o = self.lin(b)
+                    if o.a == 0:
+                        return Idx(a.c - o.b)
+                raise AnalysisError('arithmetic on the loop index other than + constant')
+            if isinstance(a, Lin) or isinstance(b, Lin):
+                la, lb = self.lin(a), self.lin(b)
+                op = type(n.op)
+                if op is ast.Add:
+                    return self.unlin(la + lb)
+                if op is ast.Sub:
+                    return self.unlin(la - lb)
+                if op is ast.Mult and (la.a == 0 or lb.a == 0):
+                    c, l = (la.b, lb) if la.a == 0 else (lb.b, la)
+                    return self.unlin(Lin(l.a * c, l.b * c))
+                if lb.a == 0 and lb.b > 0:
+                    m = lb.b
+                    if op is ast.Mod:
+                        return self.unlin(self.mod(la, m))
+                    if op is ast.FloorDiv:
+                        return self.unlin(self.div(la, m))
+                    if op is ast.RShift:
+                        return self.unlin(self.div(la, 1 << m))
+                    if op is ast.LShift:
+                        return self.unlin(Lin(la.a << m, la.b << m))
+                    if op is ast.BitAnd and m & (m + 1) == 0:
+                        return self.unlin(self.mod(la, m + 1))
+                if op is ast.BitAnd and lb.a == 0 and lb.b < 0 and (-lb.b) & (-lb.b - 1) == 0:
+                    return self.unlin(la - self.mod(la, -lb.b))        # x & ~(2^k - 1)
+                raise AnalysisError(f'operation {op.__name__} on a length is outside the skeleton language')
+            return super().ev(n)
+        if isinstance(n, ast.Subscript):
+            t = self.ev(n.value)
+            if isinstance(t, Seg):
+                if isinstance(n.slice, ast.Slice):
+                    if n.slice.step is not None:
+                        raise AnalysisError('strided slice of the input')
+                    lo = self.ev(n.slice.lower) if n.slice.lower is not None else None
+                    hi = self.ev(n.slice.upper) if n.slice.upper is not None else None
+                    if isinstance(lo, Idx) or isinstance(hi, Idx):
+                        if not (isinstance(lo, Idx) and isinstance(hi, Idx) and hi.c > lo.c):
+                            raise AnalysisError('chunk bounds must both be loop index + constant')
+                        self.ctx['unit_seg'].append(t)
+                        return ('chunk', lo.c, hi.c - lo.c)
+                    return self.slice(t, lo, hi)
+                i = self.ev(n.slice)
+                if isinstance(i, Idx):
+                    self.ctx['unit_seg'].append(t)
+                    if i.c < 0:
+                        raise AnalysisError('negative offset from the loop index')
+                    self.ctx['max_off'] = max(self.ctx.get('max_off', 0), i.c)
+                    return Vec({j: frozenset([f'b{8 * i.c + j}']) for j in range(8)})
+                raise AnalysisError('indexing the input outside a counted loop')
+            if isinstance(t, tuple) and t[0] == 'chunk':
+                raise AnalysisError('indexing a chunk')
+            return super().ev(n)
+        if isinstance(n, ast.Name) and n.id in self.env and isinstance(self.env[n.id], (Seg, Lin, Idx, tuple)):
+            return self.env[n.id]
+        if isinstance(n, ast.Constant) and isinstance(n.value, bytes):
+            if not n.value:
+                return Seg(Lin(0, 0), Lin(0, 0))        # folds nothing
+            return ('bytes', n.value)
+        return super().ev(n)
+
+    def slice(self, seg, lo, hi):
+        P = self.path
+        L = seg.y - seg.x
+
+        def norm(v, default):
+            if v is None:
+                return default
+            v = self.lin(v)
+            if not P.ge0(v):                 # negative: counted from the end, clamped at 0
+                v = L + v
+                if not P.ge0(v):
+                    v = Lin(0, 0)
+            elif P.ge0(v - L):               # beyond the end: clamped
+                v = L
+            return v
+        u, v = norm(lo, Lin(0, 0)), norm(hi, L)
+        if not P.ge0(v - u):
+            v = u
+        return Seg(seg.x + u, seg.x + v)
+
+    # ---- conditions
+    def truth(self, n):
+        P = self.path
+        if isinstance(n, ast.UnaryOp) and isinstance(n.op, ast.Not):
+            return not self.truth(n.operand)
+        if isinstance(n, ast.BoolOp):
+            if isinstance(n.op, ast.And):
+                return all(self.truth(v) for v in n.values)
+            return any(self.truth(v) for v in n.values)
+        if isinstance(n, ast.Compare) and len(n.ops) == 1:
+            a, b = self.lin(self.ev(n.left)), self.lin(self.ev(n.comparators[0]))
+            op = type(n.ops[0])
+            one = Lin(0, 1)
+            if op is ast.GtE:
+                return P.ge0(a - b)
+            if op is ast.Gt:
+                return P.ge0(a - b - one)
+            if op is ast.LtE:
+                return P.ge0(b - a)
+            if op is ast.Lt:
+                return P.ge0(b - a - one)
+            if op in (ast.Eq, ast.NotEq):
+                eq = P.ge0(a - b) and P.ge0(b - a)
+                return eq if op is ast.Eq else not eq
+            raise AnalysisError(f'comparison {op.__name__}')
+        if isinstance(n, ast.Call) and isinstance(n.func, ast.Name) and n.func.id == 'isinstance' and len(n.args) == 2 \
+                and isinstance(n.args[0], ast.Name) and isinstance(self.env.get(n.args[0].id), Seg):
+            t = n.args[1]
+            names = [e.id for e in (t.elts if isinstance(t, ast.Tuple) else [t]) if isinstance(e, ast.Name)]
+            tset = frozenset(names) & BYTE_TYPES
+            yes, no = P.dtypes & tset, P.dtypes - tset
+            if not no:
+                return True
+            if not yes:
+                return False
+            if P.decide():
+                P.dtypes = yes
+                return True
+            P.dtypes = no
+            return False
+        v = self.ev(n)
+        if isinstance(v, Seg):
+            return P.ge0(v.y - v.x - Lin(0, 1))
+        l = self.lin(v)
+        return not (P.ge0(l) and P.ge0(Lin(-l.a, -l.b)))
+
+
+def compose_spec(specv, W, k):
+    """the bitwise definition applied to bytes b0..b(k-1) in order, as a Vec over s*, b*"""
+    cur = Vec.sym('s', W)
+    for i in range(k):
+        out = {}
+        for bit, form in specv.items():
+            acc = frozenset()
+            for sym in form:
+                if sym == ONE:
+                    acc = acc ^ frozenset([ONE])
+                elif sym[0] == 's':
+                    acc = acc ^ cur.bits.get(int(sym[1:]), frozenset())
+                else:
+                    acc = acc ^ frozenset([f'b{8 * i + int(sym[1:])}'])
+            if acc:
+                out[bit] = acc
+        cur = Vec(out)
+    return cur
+
+
+def spec_vec(spec):
+    W, step = spec['w'], spec['step']
     specv = {}
     zero = step(0, 0)
     for k in range(W):
@@ -352,54 +587,440 @@ def check_fn(run, prog, fname):
                 f_.add(f'b{i}')
         if f_:
             specv[k] = frozenset(f_)
-    same = new.bits == specv
-    diff = sorted(k for k in set(new.bits) | set(specv) if new.bits.get(k) != specv.get(k))[:4]
-    run.check(same, 'O2', f'{fname}.step', f'per-byte transition equals the bitwise definition as a {W}x{W + 8} GF(2) matrix'
-              if same else f'transition differs from the bitwise definition in output bits {diff}', where)
-    run.evaluations += (W + 9) + 256
-    # the bitwise definition itself must be affine for the basis argument: checked on a spread of points
     pts = [(0x1234 & ((1 << W) - 1), 0x5A), ((1 << W) - 1, 0xFF), (0x8001, 0x01), (0xDEADBEEF & ((1 << W) - 1), 0x80)]
     ok = all(Vec(specv).eval({**{f's{i}': s >> i & 1 for i in range(W)}, **{f'b{i}': b >> i & 1 for i in range(8)}}) == step(s, b)
              for s, b in pts)
     if not ok:
         raise AnalysisError('oracle self-check failed')
-    # ---- O3 output conversion
-    ret = [s for s in post if isinstance(s, ast.Return)]
-    if len(post) != 1 or not ret:
-        # allow simple assignments before return
-        for s in post[:-1]:
-            if isinstance(s, ast.Assign) and isinstance(s.targets[0], ast.Name):
-                aff.env[s.targets[0].id] = aff.ev(s.value)
-            elif isinstance(s, ast.AugAssign) and isinstance(s.target, ast.Name):
-                aff.env[s.target.id] = aff.ev(ast.BinOp(left=ast.Name(id=s.target.id), op=s.op, right=s.value))
+    return specv
+
+
+class FnCheck:
+    """path-sensitive walk over one CRC function: which bytes are folded into the state, in which order, by which transition"""
+    def __init__(self, run, prog, fname):
+        self.run, self.prog, self.fname = run, prog, fname
+        self.spec = SPEC[fname]
+        self.W = self.spec['w']
+        self.f = prog.func(fname, module='crypto.crc')
+        self.fn = self.f.node
+        self.where = prog.where(self.f)
+        self.mod = prog.modules['crypto.crc']
+        self.params = [a.arg for a in self.fn.args.args]
+        if not self.params:
+            raise AnalysisError(f'{fname} has no parameters')
+        self.data = self.params[0]
+        self.specv = spec_vec(self.spec)
+        self.done = {}          # node id -> verdict already reported
+        self.loop_no = {}
+        self.sv = None
+        self.main = None
+        # single-expression helpers of the module are inlined
+        self.helpers = {}
+        for name, fobj in getattr(self.mod, 'funcs', {}).items():
+            node = getattr(fobj, 'node', fobj)
+            body = [s for s in node.body if not (isinstance(s, ast.Expr) and isinstance(s.value, ast.Constant))]
+            if name != fname and len(body) == 1 and isinstance(body[0], ast.Return) and body[0].value is not None \
+                    and not node.args.vararg and not node.args.kwarg and not node.args.kwonlyargs:
+                self.helpers[name] = node
+        consts = {}
+        for name, expr in self.mod.consts.items():
+            il = int_list(expr)
+            if il is not None:
+                consts[name] = il
+            elif isinstance(expr, ast.Constant) and isinstance(expr.value, int) and not isinstance(expr.value, bool):
+                consts[name] = Vec.const(expr.value) if expr.value >= 0 else Lin(0, expr.value)
+        for name, expr in self.mod.consts.items():
+            if name not in consts and not isinstance(expr, (ast.Constant, ast.Lambda)):
+                v = fold_const(prog, 'crypto.crc', expr)
+                if v is not None:
+                    consts[name] = v
+        self.consts = consts
+        self.struct_ok = any(isinstance(s, ast.Import) and any(a.name == 'struct' and a.asname in (None, 'struct') for a in s.names)
+                             for s in self.mod.tree.body) if hasattr(self.mod, 'tree') else False
+
+    def inline(self, call):
+        node = self.helpers[call.func.id]
+        ps = [a.arg for a in node.args.args]
+        defaults = dict(zip(ps[len(ps) - len(node.args.defaults):], node.args.defaults))
+        bind = {}
+        for i, a in enumerate(call.args):
+            bind[ps[i]] = a
+        for k in call.keywords:
+            bind[k.arg] = k.value
+        for p_ in ps:
+            if p_ not in bind:
+                if p_ not in defaults:
+                    raise AnalysisError(f'helper {call.func.id}: missing argument {p_}')
+                bind[p_] = defaults[p_]
+
+        class Sub(ast.NodeTransformer):
+            def visit_Name(self, n):
+                return bind[n.id] if n.id in bind else n
+        import copy
+        return Sub().visit(copy.deepcopy([s for s in node.body if isinstance(s, ast.Return)][0].value))
+
+    # ---------------------------------------------------------------- one path
+    def run_path(self, P):
+        ctx = dict(helpers=self.helpers, inline=self.inline, unit_seg=[])
+        E = PathEv(self.consts, P, ctx)
+        E.fold = lambda expr: fold_const(self.prog, 'crypto.crc', expr, {k: v for k, v in E.env.items() if isinstance(v, (list, Vec))})
+        E.env[self.data] = Seg(Lin(0, 0), P.n())
+        defaults = dict(zip(self.params[len(self.params) - len(self.fn.args.defaults):], self.fn.args.defaults))
+        for p_ in self.params[1:]:
+            E.env[p_] = ('param', p_)
+        self.E = E
+        self.entered = False
+        self.init_val = None
+        try:
+            out = self.block(self.fn.body, P)
+        except PathEnd:
+            return None
+        if out is None:
+            out = ('fall', None)
+        return out
+
+    def assign(self, name, value_node):
+        E = self.E
+        il = int_list(value_node)
+        if il is not None:
+            E.env[name] = il
+            return
+        try:
+            E.env[name] = E.ev(value_node)
+        except AnalysisError:
+            v = E.fold(value_node)
+            if v is None:
+                raise
+            E.env[name] = v
+
+    def block(self, stmts, P):
+        E = self.E
+        for st in stmts:
+            if isinstance(st, ast.Expr) and isinstance(st.value, ast.Constant):
+                continue
+            if isinstance(st, ast.Pass):
+                continue
+            if isinstance(st, ast.Assign) and len(st.targets) == 1 and isinstance(st.targets[0], ast.Name):
+                self.assign(st.targets[0].id, st.value)
+            elif isinstance(st, ast.AnnAssign) and isinstance(st.target, ast.Name) and st.value is not None:
+                self.assign(st.target.id, st.value)
+            elif isinstance(st, ast.AugAssign) and isinstance(st.target, ast.Name):
+                E.env[st.target.id] = E.ev(ast.BinOp(left=ast.Name(id=st.target.id, ctx=ast.Load()), op=st.op, right=st.value))
+            elif isinstance(st, ast.If):
+                if wrapper_branch(st, self.fname, self.data):
+                    self.wrapper(st)
+                    # the branch is taken for non-bytes inputs only; the main path continues for the others
+                    continue
+                r = self.block(st.body if E.truth(st.test) else st.orelse, P)
+                if r is not None:
+                    return r
+            elif isinstance(st, ast.For):
+                self.loop(st, P)
+            elif isinstance(st, ast.Return):
+                return ('return', st)
+            elif isinstance(st, ast.Raise):
+                return ('raise', st)
+            elif isinstance(st, ast.Assert):
+                if not E.truth(st.test):
+                    return ('raise', st)
             else:
-                raise AnalysisError(f'{fname}: unsupported statement after the loop')
-        if not post or not isinstance(post[-1], ast.Return):
-            raise AnalysisError(f'{fname}: no return after the loop')
-    r = post[-1].value
-    aff.env[sv] = Vec.sym('s', W)
-    okc = False
-    detail = ast.unparse(r)[:80]
-    if isinstance(r, ast.Call) and isinstance(r.func, ast.Attribute) and r.func.attr == 'to_bytes':
-        val = aff.ev(r.func.value)
-        want = Vec.sym('s', W).xor(Vec.const(spec['xorout']))
-        args = list(r.args)
-        kws = {k.arg: k.value for k in r.keywords}
-        length = args[0] if args else kws.get('length')
-        order = args[1] if len(args) > 1 else kws.get('byteorder')
-        signed = kws.get('signed')
-        len_ok = isinstance(length, ast.Constant) and length.value == spec['nbytes']
-        if fname == 'crc16':
-            ord_ok = isinstance(order, ast.Constant) and order.value == 'big'
+                raise AnalysisError(f'{self.fname}: unsupported statement: {ast.unparse(st)[:60]}')
+        return None
+
+    def wrapper(self, st):
+        if id(st) in self.done:
+            return
+        self.done[id(st)] = True
+        call = st.body[0].value
+        missing = []
+        for i, pname in enumerate(self.params[1:], start=1):
+            passed = call.args[i] if i < len(call.args) else next((k.value for k in call.keywords if k.arg == pname), None)
+            if not (isinstance(passed, ast.Name) and passed.id == pname):
+                missing.append(pname)
+        self.run.check(not missing, 'O3b', f'{self.fname}.output' if missing else f'{self.fname}.wrapper-branch',
+                       f'the branch `{ast.unparse(st.test)[:50]}` re-enters {self.fname} ' + (f'without forwarding {missing}: the result ignores the requested {", ".join(missing)}' if missing else 'forwarding every parameter'), self.where)
+
+    # ---------------------------------------------------------------- loops
+    def loop(self, st, P):
+        E = self.E
+        fname = self.fname
+        if st.orelse or any(isinstance(x, (ast.Break, ast.Continue, ast.Return, ast.Raise, ast.If, ast.While, ast.For, ast.Try, ast.IfExp))
+                            for s in st.body for x in ast.walk(s)):
+            self.run.check(False, 'O4', f'{fname}.loop', 'loop over the input with an early exit / conditional body', self.where)
+            raise PathEnd()
+        it = st.iter
+        k, order, seg, binder, rng = None, None, None, None, None
+        if isinstance(it, ast.Call) and isinstance(it.func, ast.Name) and it.func.id == 'range' and 1 <= len(it.args) <= 3 and not it.keywords:
+            a = [E.lin(E.ev(x)) for x in it.args]
+            x, y, stp = (Lin(0, 0), a[0], Lin(0, 1)) if len(a) == 1 else (a[0], a[1], Lin(0, 1)) if len(a) == 2 else (a[0], a[1], a[2])
+            if stp.a != 0 or stp.b <= 0 or not isinstance(st.target, ast.Name):
+                raise AnalysisError(f'{fname}: range loop with a non-constant or non-positive step')
+            k, rng = stp.b, (x, y)
+        elif isinstance(it, ast.Call) and isinstance(it.func, ast.Attribute) and it.func.attr == 'iter_unpack' \
+                and isinstance(it.func.value, ast.Name) and it.func.value.id == 'struct' and self.struct_ok and len(it.args) == 2:
+            fmt = it.args[0].value if isinstance(it.args[0], ast.Constant) else None
+            if fmt not in STRUCT_FMT:
+                raise AnalysisError(f'{fname}: struct format {fmt!r} not modelled')
+            k, order = STRUCT_FMT[fmt]
+            seg = E.ev(it.args[1])
+            if not (isinstance(st.target, ast.Tuple) and len(st.target.elts) == 1 and isinstance(st.target.elts[0], ast.Name)):
+                raise AnalysisError(f'{fname}: iter_unpack target must be a 1-tuple')
+            binder = st.target.elts[0].id
         else:
-            # the requested byte order must reach to_bytes unchanged
-            ord_ok = isinstance(order, ast.Name) and order.id in params[1:] and order.id not in assigned \
-                and not any(isinstance(s, (ast.Assign, ast.AugAssign)) and order.id in {n.id for n in ast.walk(s) if isinstance(n, ast.Name) and isinstance(n.ctx, ast.Store)} for s in fn.body)
-        sg_ok = signed is None or (isinstance(signed, ast.Constant) and not signed.value)
-        okc = val == want and len_ok and ord_ok and sg_ok
-        detail = f'value==state^{spec["xorout"]:#x}:{val == want} length:{len_ok} byteorder:{ord_ok} unsigned:{sg_ok}'
-    run.check(okc, 'O3b', f'{fname}.output', detail, where)
-    return dict(sv=sv, byte=byte, loop=loop, aff=aff, W=W, spec=spec, new=new)
+            seg = E.ev(it)
+            if not isinstance(st.target, ast.Name):
+                raise AnalysisError(f'{fname}: loop target')
+            k, order, binder = 1, 'little', st.target.id
+        if rng is None and not isinstance(seg, Seg):
+            if isinstance(seg, list):
+                raise AnalysisError(f'{fname}: loop over a table inside the function body')
+            raise AnalysisError(f'{fname}: loop over something that is not the input')
+        # ---- state variable
+        assigned = []
+        for s in st.body:
+            tg = s.targets[0] if isinstance(s, ast.Assign) and len(s.targets) == 1 else s.target if isinstance(s, ast.AugAssign) else None
+            if not isinstance(tg, ast.Name):
+                raise AnalysisError(f'{fname}: unsupported loop statement {ast.unparse(s)[:60]}')
+            if tg.id not in assigned:
+                assigned.append(tg.id)
+        state = [v for v in assigned if v in E.env and isinstance(E.env[v], Vec)]
+        if len(state) != 1:
+            raise AnalysisError(f'{fname}: expected one loop-carried state variable, found {state}')
+        sv = state[0]
+        if self.sv not in (None, sv):
+            raise AnalysisError(f'{fname}: two different state variables {self.sv}, {sv}')
+        self.sv = sv
+        cur = E.env[sv]
+        if not self.entered:
+            self.init_val = cur
+            if id(st) not in self.done or ('init', id(st)) not in self.done:
+                self.done[('init', id(st))] = True
+                self.run.check(cur.is_const() and cur.cval() == self.spec['init'], 'O3', f'{fname}.init',
+                               f'initial value {cur.cval() if cur.is_const() else "?"} (spec {self.spec["init"]:#x})', self.where)
+        elif not (cur == Vec.sym('s', self.W)):
+            self.run.check(False, 'O2', f'{fname}.step', f'the state is modified between two loops over the input ({P.cond()})', self.where)
+        self.entered = True
+        # ---- transition of one unit
+        ctx = E.ctx
+        ctx['unit_seg'] = []
+        ctx['max_off'] = 0
+        saved = dict(E.env)
+        E.env[sv] = Vec.sym('s', self.W)
+        if rng is not None:
+            E.env[st.target.id] = Idx(0)
+        else:
+            E.env[binder] = bytes_vec(k, order)
+        for s in st.body:
+            if isinstance(s, ast.Assign):
+                E.env[s.targets[0].id] = E.ev(s.value)
+            else:
+                E.env[s.target.id] = E.ev(ast.BinOp(left=ast.Name(id=s.target.id, ctx=ast.Load()), op=s.op, right=s.value))
+        new = E.env[sv]
+        tables_used = {n.id for s in st.body for n in ast.walk(s) if isinstance(n, ast.Name) and isinstance(saved.get(n.id), list)}
+        E.env = saved
+        if rng is not None:
+            segs = ctx['unit_seg']
+            if not segs or any(s_ is not segs[0] and (s_.x, s_.y) != (segs[0].x, segs[0].y) for s_ in segs):
+                raise AnalysisError(f'{fname}: counted loop that does not read the input at the index')
+            base = segs[0]
+            x, y = rng
+            L = base.y - base.x
+            if not P.ge0(y - x - Lin(0, 1)):
+                seg = Seg(base.x, base.x)       # no iteration
+                count_ok = True
+            else:
+                if not P.ge0(x):
+                    raise AnalysisError(f'{fname}: range starting at a negative index')
+                d = y - x
+                rem = E.mod(d, k).b
+                end = y + Lin(0, (k - rem) % k)
+                # every read at offset c < k of the last unit must lie inside the sequence, else IndexError / short chunk
+                if not P.ge0(L - end):
+                    self.path_violation(P, 'O4', f'{fname}.loop', f'the counted loop reads past the end of the input: units of {k} bytes from {P.show(x)} to {P.show(y)} over {P.show(L)} bytes')
+                    raise PathEnd()
+                seg = Seg(base.x + x, base.x + end)
+        else:
+            L = seg.y - seg.x
+            if k > 1:
+                rem = E.mod(L, k).b
+                if rem:
+                    self.path_violation(P, 'O4', f'{fname}.loop', f'struct.iter_unpack over {P.show(L)} bytes, not a multiple of {k}: raises struct.error')
+                    raise PathEnd()
+        # ---- verdict on the transition (once per loop)
+        key = ('loop', id(st))
+        if key not in self.done:
+            self.done[key] = True
+            no = len([1 for q_ in self.done if isinstance(q_, tuple) and q_[0] == 'loop'])
+            tag = '' if k == 1 and no == 1 else f'[unit of {k} bytes]' if k > 1 else f'[loop {no}]'
+            if k == 1:
+                self.main = dict(sv=sv, loop=st, new=new, W=self.W, spec=self.spec)
+            for t in sorted(tables_used):
+                T = E.env[t]
+                lin = len(T) == 256 and T[0] == 0 and all(T[a] == _xor([T[1 << i] for i in range(8) if a >> i & 1]) for a in range(256))
+                if k == 1:
+                    ok = T == self.spec['table']
+                    bad = [i for i in range(min(len(T), 256)) if T[i] != self.spec['table'][i]][:3]
+                    self.run.check(ok, 'O1', f'{fname}.table', f'{len(T)} entries equal the table generated from the polynomial'
+                                   if ok else f'table `{t}` differs from the generated table at indices {bad} (len {len(T)})', self.where)
+                self.run.check(lin, 'O1b', f'{fname}.table-linear{tag and "-" + t}', f'`{t}`: T[a^b] = T[a]^T[b] on all 256 entries (premise of the affine lookup)', self.where)
+                if not lin:
+                    raise PathEnd()
+            if not tables_used:
+                self.run.info(f'{fname}: table-free loop')
+            self.run.check(new.width() <= self.W, 'O2b', f'{fname}.state-range{tag}', f'state stays within {self.W} bits (width {new.width()})', self.where)
+            want = compose_spec(self.specv, self.W, k)
+            same = new.bits == want.bits
+            diff = sorted(b for b in set(new.bits) | set(want.bits) if new.bits.get(b) != want.bits.get(b))[:4]
+            self.run.check(same, 'O2', f'{fname}.step{tag}', (f'per-unit transition equals {k} applications of the bitwise definition as a {self.W}x{self.W + 8 * k} GF(2) matrix'
+                           if same else f'transition differs from the bitwise definition in output bits {diff}'), self.where)
+            self.run.evaluations += (self.W + 8 * k + 1) + 256
+        E.env[sv] = Vec.sym('s', self.W)
+        P.events.append((seg, k, st))
+
+    def path_violation(self, P, rule, construct, msg):
+        key = (rule, construct, msg)
+        if key in self.done:
+            return
+        self.done[key] = True
+        self.run.check(False, rule, construct, f'{msg}  [{P.cond()}]', self.where)
+
+    # ---------------------------------------------------------------- output
+    def output(self, P, st):
+        E, fname, spec = self.E, self.fname, self.spec
+        r = st.value
+        if isinstance(r, ast.Call) and isinstance(r.func, ast.Name) and r.func.id in self.helpers:
+            r = self.inline(r)
+        detail = ast.unparse(r)[:80]
+        okc = False
+        cur = E.env.get(self.sv) if self.sv else None
+        if isinstance(r, ast.Call) and isinstance(r.func, ast.Attribute) and r.func.attr == 'to_bytes':
+            val = E.ev(r.func.value)
+            state = Vec.sym('s', self.W) if self.entered else Vec.const(spec['init'])
+            want = state.xor(Vec.const(spec['xorout']))
+            args = list(r.args)
+            kws = {k.arg: k.value for k in r.keywords}
+            length = args[0] if args else kws.get('length')
+            order = args[1] if len(args) > 1 else kws.get('byteorder')
+            signed = kws.get('signed')
+            try:
+                lv = E.ev(length) if length is not None else None
+            except AnalysisError:
+                lv = None
+            len_ok = isinstance(lv, Vec) and lv.is_const() and lv.cval() == spec['nbytes']
+            if fname == 'crc16':
+                ord_ok = isinstance(order, ast.Constant) and order.value == 'big'
+                if order is not None and not ord_ok:
+                    try:
+                        ord_ok = E.ev(order) == 'big'
+                    except AnalysisError:
+                        ord_ok = False
+            else:
+                try:
+                    ov = E.ev(order) if order is not None else None
+                except AnalysisError:
+                    ov = None
+                ord_ok = ov == ('param', self.params[1]) if len(self.params) > 1 else False
+            sg_ok = signed is None or (isinstance(signed, ast.Constant) and not signed.value)
+            okc = isinstance(val, Vec) and val == want and len_ok and ord_ok and sg_ok
+            detail = f'value==state^{spec["xorout"]:#x}:{isinstance(val, Vec) and val == want} length:{len_ok} byteorder:{ord_ok} unsigned:{sg_ok}'
+        key = ('out', id(st), self.entered)
+        if key not in self.done or not okc:
+            if okc:
+                self.done[key] = True
+                self.run.check(True, 'O3b', f'{fname}.output', detail, self.where)
+            else:
+                self.path_violation(P, 'O3b', f'{fname}.output', detail)
+
+    def coverage(self, P):
+        """the consumed segments are [0,p1), [p1,p2), ... [pk, n) in this order"""
+        pos = Lin(0, 0)
+        same = lambda a, b: a == b or (P.ge0(a - b) and P.ge0(b - a))
+        for seg, k, st in P.events:
+            if same(seg.x, seg.y):
+                continue        # an empty segment folds nothing, wherever it is
+            if not same(seg.x, pos):
+                what = 'again' if not P.ge0(seg.x - pos) else 'after skipping'
+                self.path_violation(P, 'O4', f'{self.fname}.loop',
+                                    f'loop at line {st.lineno - self.fn.lineno + 1} of the function folds bytes [{P.show(seg.x)}, {P.show(seg.y)}) {what} [..{P.show(pos)}): not every byte exactly once, in order')
+                return False
+            pos = seg.y
+        if not same(pos, P.n()):
+            self.path_violation(P, 'O4', f'{self.fname}.loop', f'only bytes [0, {P.show(pos)}) of {P.show(P.n())} are folded into the checksum')
+            return False
+        return True
+
+
+def check_fn(run, prog, fname):
+    fc = FnCheck(run, prog, fname)
+    # the modulus discovery pass must not emit verdicts twice: collect with a recording run first
+    M = 1
+    import math
+    for attempt in range(8):
+        rec = _Recorder(run)
+        fc.run, fc.done, fc.sv, fc.main = rec, {}, None, None
+        try:
+            results = []
+            for r in range(M):
+                stack = [[]]
+                while stack:
+                    prefix = stack.pop()
+                    P = Path(prefix, M, r)
+                    out = fc.run_path(P)
+                    if out is not None and P.feasible():
+                        kind, st = out
+                        try:
+                            if kind == 'return':
+                                fc.coverage(P)
+                                fc.output(P, st)
+                            elif kind == 'raise':
+                                fc.path_violation(P, 'O4', f'{fname}.loop', f'raises `{ast.unparse(st)[:50]}` for a byte string')
+                            else:
+                                fc.path_violation(P, 'O3b', f'{fname}.output', 'falls off the end of the function (returns None)')
+                            results.append((P, out))
+                        except PathEnd:
+                            pass
+                    for i in range(len(prefix), len(P.trail)):
+                        stack.append(P.trail[:i] + [not P.trail[i]])
+                    if len(results) > 4000:
+                        raise AnalysisError(f'{fname}: too many paths in the length skeleton')
+            break
+        except NeedModulus as e:
+            M = M * e.m // math.gcd(M, e.m)
+            if M > 64:
+                raise AnalysisError(f'{fname}: length skeleton needs modulus {M}')
+    else:
+        raise AnalysisError(f'{fname}: length skeleton does not stabilise')
+    rec.flush()
+    npaths = len(results)
+    good = not any(not c for c, *_ in rec.items if _[0] == 'O4')
+    if good:
+        run.check(True, 'O4', f'{fname}.loop', f'{npaths} path(s) of the length skeleton (n = {M}q+r): the loops fold [0,n) exactly once, in order, no early exit', fc.where)
+    return fc.main
+
+
+class _Recorder:
+    """buffers verdicts of one exploration so that a restart with a finer modulus does not report twice"""
+    def __init__(self, run):
+        self.real, self.items, self.infos = run, [], []
+        self.evaluations = 0
+
+    def check(self, cond, rule, construct, detail='', where='', witness=None):
+        self.items.append((cond, rule, construct, detail, where))
+
+    def info(self, msg):
+        if msg not in self.infos:
+            self.infos.append(msg)
+
+    def flush(self):
+        seen = set()
+        for cond, rule, construct, detail, where in self.items:
+            if (cond, rule, construct, detail) in seen:
+                continue
+            seen.add((cond, rule, construct, detail))
+            self.real.check(cond, rule, construct, detail, where)
+        for m in self.infos:
+            self.real.info(m)
+        self.real.evaluations += self.evaluations
 
 
 def _xor(xs):
